@@ -64,6 +64,12 @@ func c07Run(r *Run) {
 	}
 	info := npkg.TypesInfo
 	dataPath := modPath + "/data"
+	c07TypeWrappers(r, npkg, dpkg)
+	// a call of a type-predicate wrapper (accepts(declared, value), data.Accepts(...)) consults the declared type
+	isWrapperCall := func(c *ast.CallExpr) bool {
+		_, ok := c07Wrappers[calleeOf(info, c)]
+		return ok
+	}
 	isMemberDecl := func(t types.Type) bool {
 		return isNamed(t, dataPath, "Property") || isNamed(t, dataPath, "Method")
 	}
@@ -93,6 +99,95 @@ func c07Run(r *Run) {
 	insidePath := func(fd *ast.FuncDecl) bool {
 		tn := recvTypeName(fd)
 		return strings.HasPrefix(tn, "CallSelf") || strings.HasPrefix(tn, "CallStaticKeyword") || strings.HasPrefix(tn, "CallParent")
+	}
+	// helpers that hand a looked-up member declaration back to their caller — as a result of member type
+	// or inside a result struct of this package that has a member-typed field: the duty to consult the
+	// modifier travels with the value, so the helper's successful return is not a use and the caller
+	// is judged on the result it receives. function → result index
+	carriesMember := func(t types.Type) bool {
+		if isMemberDecl(t) {
+			return true
+		}
+		if nt := namedOf(t); nt != nil && nt.Obj().Pkg() == npkg.Types {
+			if st, ok := nt.Underlying().(*types.Struct); ok {
+				for i := 0; i < st.NumFields(); i++ {
+					if isMemberDecl(st.Field(i).Type()) {
+						return true
+					}
+				}
+			}
+		}
+		return false
+	}
+	returnsMember := map[*types.Func]int{}
+	for round := 0; round < 4; round++ {
+		for _, fd := range funcDecls(npkg) {
+			f, ok := info.Defs[fd.Name].(*types.Func)
+			if !ok || fd.Body == nil {
+				continue
+			}
+			if _, done := returnsMember[f]; done {
+				continue
+			}
+			switch fd.Name.Name {
+			case "GetValue", "SetValue", "Call", "GetZVal":
+				continue
+			}
+			sig := f.Type().(*types.Signature)
+			for i := 0; i < sig.Results().Len(); i++ {
+				if carriesMember(sig.Results().At(i).Type()) {
+					looks := false
+					ast.Inspect(fd.Body, func(n ast.Node) bool {
+						if c, ok := n.(*ast.CallExpr); ok {
+							if cal, ok := calleeOf(info, c).(*types.Func); ok {
+								nm := cal.Name()
+								if strings.HasPrefix(nm, "Get") && (strings.Contains(nm, "Property") || strings.Contains(nm, "Method")) {
+									looks = true
+								}
+								if _, ok := returnsMember[cal]; ok {
+									looks = true
+								}
+							}
+						}
+						return true
+					})
+					if looks {
+						returnsMember[f] = i
+					}
+					break
+				}
+			}
+		}
+	}
+	// methods of a member-carrying struct that consult the carried member's modifier (target.reachableFrom(ctx))
+	carrierGate := map[*types.Func]bool{}
+	for _, fd := range funcDecls(npkg) {
+		f, ok := info.Defs[fd.Name].(*types.Func)
+		if !ok || fd.Body == nil || fd.Recv == nil || len(fd.Recv.List) != 1 || len(fd.Recv.List[0].Names) != 1 {
+			continue
+		}
+		if !carriesMember(info.TypeOf(fd.Recv.List[0].Type)) {
+			continue
+		}
+		recv := info.Defs[fd.Recv.List[0].Names[0]]
+		ast.Inspect(fd.Body, func(n ast.Node) bool {
+			if c, ok := n.(*ast.CallExpr); ok {
+				if se, ok := ast.Unparen(c.Fun).(*ast.SelectorExpr); ok && se.Sel.Name == "GetModifier" {
+					root := ast.Unparen(se.X)
+					for {
+						if sx, ok := root.(*ast.SelectorExpr); ok {
+							root = ast.Unparen(sx.X)
+							continue
+						}
+						break
+					}
+					if id, ok := root.(*ast.Ident); ok && info.Uses[id] == recv {
+						carrierGate[f] = true
+					}
+				}
+			}
+			return true
+		})
 	}
 	// helpers that check the modifier of a parameter
 	checksParam := map[*types.Func]map[int]bool{}
@@ -237,6 +332,7 @@ func c07Run(r *Run) {
 			reps = append(reps, rep{key, msg, pos, ok})
 		}
 		lookupPos := map[types.Object]token.Pos{}
+		weak := map[types.Object]bool{}
 		propVars := map[types.Object]bool{}
 		typeAlias := map[types.Object]types.Object{} // t := property.GetType()
 		ast.Inspect(fd.Body, func(m ast.Node) bool {
@@ -305,6 +401,22 @@ func c07Run(r *Run) {
 			if !ok {
 				return s
 			}
+			if isWrapperCall(c) {
+				// data.Accepts(property.GetType(), value): the declared type of every property named in the
+				// arguments is consulted
+				for _, a := range c.Args {
+					ast.Inspect(a, func(m ast.Node) bool {
+						if id, ok := m.(*ast.Ident); ok {
+							if o := info.Uses[id]; propVars[o] {
+								delete(s.typeUn, o)
+							} else if src, ok := typeAlias[o]; ok {
+								delete(s.typeUn, src)
+							}
+						}
+						return true
+					})
+				}
+			}
 			if se, ok := ast.Unparen(c.Fun).(*ast.SelectorExpr); ok {
 				if se.Sel.Name == "Is" && len(c.Args) == 1 {
 					// property.GetType().Is(value)  /  t := property.GetType(); t.Is(value)
@@ -324,6 +436,31 @@ func c07Run(r *Run) {
 						for o, p := range s.typeUn {
 							add("typed-store:"+o.Name(), p, false, fmt.Sprintf("the property declaration looked up here is followed by a store of the incoming value (line %d) on a path that never consulted its declared type (Types.Is)", r.Fset.Position(c.Pos()).Line))
 							delete(s.typeUn, o)
+						}
+					}
+				}
+				if cal, ok := calleeOf(info, c).(*types.Func); ok && carrierGate[cal] {
+					if id, ok := ast.Unparen(se.X).(*ast.Ident); ok {
+						if o := info.Uses[id]; o != nil {
+							delete(s.unchecked, o)
+						}
+					}
+				}
+				if se.Sel.Name == "GetModifier" {
+					// target.method.GetModifier(): the member carried by a tracked struct is consulted
+					root := ast.Unparen(se.X)
+					for {
+						if sx, ok := root.(*ast.SelectorExpr); ok {
+							root = ast.Unparen(sx.X)
+							continue
+						}
+						break
+					}
+					if id, ok := root.(*ast.Ident); ok {
+						if o := info.Uses[id]; o != nil {
+							if _, tracked := lookupPos[o]; tracked {
+								delete(s.unchecked, o)
+							}
 						}
 					}
 				}
@@ -358,6 +495,16 @@ func c07Run(r *Run) {
 		}
 		h.Cond = func(e ast.Expr, truth bool, st State) State {
 			s := st.(*c07State)
+			// target.found is false: the carrier holds no member on this branch
+			if se, ok := ast.Unparen(e).(*ast.SelectorExpr); ok && !truth {
+				if id, ok := ast.Unparen(se.X).(*ast.Ident); ok {
+					if o := info.Uses[id]; o != nil && carriesMember(o.Type()) && !isMemberDecl(o.Type()) {
+						if b, ok := info.TypeOf(se).Underlying().(*types.Basic); ok && b.Kind() == types.Bool {
+							delete(s.unchecked, o)
+						}
+					}
+				}
+			}
 			if id, ok := ast.Unparen(e).(*ast.Ident); ok && !truth {
 				if m, ok := s.okOf[info.Uses[id]]; ok {
 					delete(s.unchecked, m) // the lookup found nothing on this branch
@@ -400,7 +547,35 @@ func c07Run(r *Run) {
 			for o := range s.unchecked {
 				objs = append(objs, o)
 			}
+			// a helper that hands the member (or the struct carrying it) back: the caller is judged
+			if f, ok := info.Defs[fd.Name].(*types.Func); ok {
+				if ri, carries := returnsMember[f]; carries && ri < len(rs.Results) {
+					if id, ok := ast.Unparen(rs.Results[ri]).(*ast.Ident); ok {
+						delete(s.unchecked, info.Uses[id])
+						objs = objs[:0]
+						for o := range s.unchecked {
+							objs = append(objs, o)
+						}
+					}
+				}
+			}
 			for _, o := range objs {
+				if weak[o] {
+					// received from a helper (no found-flag of its own here): judged where it is used or where
+					// what is handed out is built from it
+					mentioned := false
+					for _, res := range rs.Results {
+						ast.Inspect(res, func(n ast.Node) bool {
+							if id, ok := n.(*ast.Ident); ok && info.Uses[id] == o {
+								mentioned = true
+							}
+							return !mentioned
+						})
+					}
+					if !mentioned {
+						continue
+					}
+				}
 				use(s, o, rs.Pos(), "found and the access succeeds")
 			}
 		}
@@ -409,6 +584,70 @@ func c07Run(r *Run) {
 			as, ok := stm.(*ast.AssignStmt)
 			if !ok {
 				return s
+			}
+			// target = T{method: m} / target.method = m / target.method, ok = lookup(): the obligation moves to
+			// (or starts on) the struct that carries the member
+			rootObj := func(e ast.Expr) types.Object {
+				e = ast.Unparen(e)
+				for {
+					if sx, ok := e.(*ast.SelectorExpr); ok {
+						e = ast.Unparen(sx.X)
+						continue
+					}
+					break
+				}
+				if id, ok := e.(*ast.Ident); ok {
+					if o := info.Defs[id]; o != nil {
+						return o
+					}
+					return info.Uses[id]
+				}
+				return nil
+			}
+			if len(as.Lhs) == len(as.Rhs) {
+				for i := range as.Lhs {
+					lo := rootObj(as.Lhs[i])
+					if lo == nil {
+						continue
+					}
+					var carried []types.Object
+					switch rx := ast.Unparen(as.Rhs[i]).(type) {
+					case *ast.CompositeLit:
+						for _, el := range rx.Elts {
+							v := el
+							if kv, ok := el.(*ast.KeyValueExpr); ok {
+								v = kv.Value
+							}
+							if id, ok := ast.Unparen(v).(*ast.Ident); ok {
+								carried = append(carried, info.Uses[id])
+							}
+						}
+					case *ast.Ident:
+						if _, isSel := ast.Unparen(as.Lhs[i]).(*ast.SelectorExpr); isSel {
+							carried = append(carried, info.Uses[rx])
+						}
+					}
+					for _, ro := range carried {
+						if p, pending := s.unchecked[ro]; pending && ro != lo {
+							delete(s.unchecked, ro)
+							s.unchecked[lo] = p
+							lookupPos[lo] = p
+						}
+					}
+				}
+			}
+			if len(as.Rhs) == 1 {
+				if c, ok := ast.Unparen(as.Rhs[0]).(*ast.CallExpr); ok {
+					if cal, ok := calleeOf(info, c).(*types.Func); ok {
+						if ri, carries := returnsMember[cal]; carries && ri < len(as.Lhs) {
+							if lo := rootObj(as.Lhs[ri]); lo != nil {
+								s.unchecked[lo] = c.Pos()
+								lookupPos[lo] = c.Pos()
+								weak[lo] = true
+							}
+						}
+					}
+				}
 			}
 			// method = m : the obligation on m moves to method
 			if len(as.Lhs) == len(as.Rhs) {
@@ -709,6 +948,12 @@ func c07Run(r *Run) {
 						}
 					}
 				}
+				if isWrapperCall(c) {
+					n++
+					if !pos.IsValid() {
+						pos = c.Pos()
+					}
+				}
 			}
 			return true
 		})
@@ -743,6 +988,17 @@ func c07Run(r *Run) {
 		key := funcKey(npkg, fd) + "#typed-property-store"
 		if n, _ := callsIs(fd); n > 0 {
 			r.ok(key, stores, "the property store path consults the declared type (Types.Is)")
+		} else if callers := c07CallersOf(npkg, fd); !fd.Name.IsExported() && len(callers) > 0 && func() bool {
+			// a helper of the access node (the arm for properties without a declaration, a shared tail):
+			// it is reached only through methods that consult the declared type themselves
+			for _, cfd := range callers {
+				if n, _ := callsIs(cfd); n == 0 {
+					return false
+				}
+			}
+			return true
+		}() {
+			r.ok(key, stores, "a helper reached only from store paths that consult the declared type themselves")
 		} else {
 			r.bad(key, stores, "stores a value into a property without consulting the declared type: a typed property accepts any value through this access path")
 		}
@@ -886,100 +1142,7 @@ func c07Reject(r *Run, npkg *packages.Package) {
 		}
 		return "", false
 	}
-	// type-predicate wrappers: bool functions of (…, data.Types, …, value) — a call of one is a type test
-	// like Types.Is, provided the wrapper answers true only after Types.Is answered true for that value
-	wrapper := map[types.Object][2]int{} // wrapper → (index of the Types parameter, index of the value parameter)
-	for _, fd := range funcDecls(npkg) {
-		f, ok := info.Defs[fd.Name].(*types.Func)
-		if !ok || fd.Body == nil {
-			continue
-		}
-		sig := f.Type().(*types.Signature)
-		if sig.Results().Len() != 1 {
-			continue
-		}
-		if b, ok := sig.Results().At(0).Type().Underlying().(*types.Basic); !ok || b.Kind() != types.Bool {
-			continue
-		}
-		ti, vi := -1, -1
-		for i := 0; i < sig.Params().Len(); i++ {
-			pt := sig.Params().At(i).Type()
-			if isNamed(pt, dataPath, "Types") {
-				ti = i
-			} else if isNamed(pt, dataPath, "Value") || isNamed(pt, dataPath, "GetValue") {
-				vi = i
-			}
-		}
-		if ti < 0 || vi < 0 {
-			continue
-		}
-		tObj, vObj := paramObjAt(info, fd, ti), paramObjAt(info, fd, vi)
-		if tObj == nil || vObj == nil {
-			continue
-		}
-		// does it consult Is on its parameters at all?
-		consults := false
-		ast.Inspect(fd.Body, func(n ast.Node) bool {
-			if c, ok := n.(*ast.CallExpr); ok {
-				if se, ok := ast.Unparen(c.Fun).(*ast.SelectorExpr); ok && se.Sel.Name == "Is" && len(c.Args) == 1 {
-					if id, ok := ast.Unparen(se.X).(*ast.Ident); ok && info.Uses[id] == tObj {
-						consults = true
-					}
-				}
-			}
-			return true
-		})
-		if !consults {
-			continue
-		}
-		wrapper[f] = [2]int{ti, vi}
-		// every `return true` lies behind a true answer of declared.Is(value)
-		type st struct{ passed bool }
-		var early token.Pos
-		h := &Hooks{Info: info}
-		h.Copy = func(s State) State { c := *s.(*st); return &c }
-		h.Join = func(a, b State) State { return &st{a.(*st).passed && b.(*st).passed} }
-		h.Equal = func(a, b State) bool { return *a.(*st) == *b.(*st) }
-		h.Cond = func(e ast.Expr, truth bool, s State) State {
-			if c, ok := ast.Unparen(e).(*ast.CallExpr); ok && truth {
-				if se, ok := ast.Unparen(c.Fun).(*ast.SelectorExpr); ok && se.Sel.Name == "Is" && len(c.Args) == 1 {
-					tid, ok1 := ast.Unparen(se.X).(*ast.Ident)
-					vid, ok2 := ast.Unparen(c.Args[0]).(*ast.Ident)
-					if ok1 && ok2 && info.Uses[tid] == tObj && info.Uses[vid] == vObj {
-						s.(*st).passed = true
-					}
-				}
-			}
-			return s
-		}
-		h.Return = func(rs *ast.ReturnStmt, s State) {
-			if len(rs.Results) != 1 || early.IsValid() {
-				return
-			}
-			res := ast.Unparen(rs.Results[0])
-			if exprStr(res) == "true" && !s.(*st).passed {
-				early = rs.Pos()
-			}
-			// return declared.Is(value) is the test itself; any other non-constant answer is not understood
-			if exprStr(res) != "true" && exprStr(res) != "false" {
-				if c, ok := res.(*ast.CallExpr); ok {
-					if se, ok := ast.Unparen(c.Fun).(*ast.SelectorExpr); ok && se.Sel.Name == "Is" {
-						return
-					}
-				}
-				if !s.(*st).passed {
-					early = rs.Pos()
-				}
-			}
-		}
-		WalkFunc(h, fd.Body, &st{})
-		key := funcKey(npkg, fd) + "#predicate-tests"
-		if early.IsValid() {
-			r.bad(key, early, "this type predicate answers true on a path on which the declared type's Is(value) was not consulted (a memo or fast path): a value of another type is accepted at every boundary that uses it")
-		} else {
-			r.ok(key, fd.Pos(), "answers true only after the declared type's Is(value) answered true")
-		}
-	}
+	wrapper := c07Wrappers
 	wrapperOf = func(c *ast.CallExpr) ([2]int, bool) {
 		idx, ok := wrapper[calleeOf(info, c)]
 		return idx, ok
@@ -1596,4 +1759,160 @@ func isVisibilityPredicate(f *types.Func, dataPath string) bool {
 		return false
 	}
 	return isNamed(sig.Params().At(0).Type(), dataPath, "Context") && isNamed(sig.Params().At(1).Type(), dataPath, "ClassStmt")
+}
+
+// c07Wrappers: type-predicate wrappers of the module (packages node and data), filled by c07TypeWrappers.
+var c07Wrappers map[types.Object][2]int
+
+// c07TypeWrappers finds and judges the type-predicate wrappers: bool functions of (…, data.Types, …, value)
+// — a call of one is a type test like Types.Is, provided the wrapper answers true only after Types.Is
+// answered true for that value, or because there is no declared type at all (declared == nil).
+func c07TypeWrappers(r *Run, pkgs ...*packages.Package) {
+	r.curRule = "C07-REJECT"
+	dataPath := modPath + "/data"
+	wrapper := map[types.Object][2]int{}
+	c07Wrappers = wrapper
+	for _, npkg := range pkgs {
+		if npkg == nil {
+			continue
+		}
+		info := npkg.TypesInfo
+		for _, fd := range funcDecls(npkg) {
+			f, ok := info.Defs[fd.Name].(*types.Func)
+			if !ok || fd.Body == nil {
+				continue
+			}
+			sig := f.Type().(*types.Signature)
+			if sig.Results().Len() != 1 {
+				continue
+			}
+			if b, ok := sig.Results().At(0).Type().Underlying().(*types.Basic); !ok || b.Kind() != types.Bool {
+				continue
+			}
+			ti, vi := -1, -1
+			for i := 0; i < sig.Params().Len(); i++ {
+				pt := sig.Params().At(i).Type()
+				if isNamed(pt, dataPath, "Types") {
+					ti = i
+				} else if isNamed(pt, dataPath, "Value") || isNamed(pt, dataPath, "GetValue") {
+					vi = i
+				}
+			}
+			if ti < 0 || vi < 0 {
+				continue
+			}
+			tObj, vObj := paramObjAt(info, fd, ti), paramObjAt(info, fd, vi)
+			if tObj == nil || vObj == nil {
+				continue
+			}
+			// does it consult Is on its parameters at all?
+			consults := false
+			ast.Inspect(fd.Body, func(n ast.Node) bool {
+				if c, ok := n.(*ast.CallExpr); ok {
+					if se, ok := ast.Unparen(c.Fun).(*ast.SelectorExpr); ok && se.Sel.Name == "Is" && len(c.Args) == 1 {
+						if id, ok := ast.Unparen(se.X).(*ast.Ident); ok && info.Uses[id] == tObj {
+							consults = true
+						}
+					}
+				}
+				return true
+			})
+			if !consults {
+				continue
+			}
+			wrapper[f] = [2]int{ti, vi}
+			// every `return true` lies behind a true answer of declared.Is(value)
+			type st struct{ passed bool }
+			var early token.Pos
+			h := &Hooks{Info: info}
+			h.Copy = func(s State) State { c := *s.(*st); return &c }
+			h.Join = func(a, b State) State { return &st{a.(*st).passed && b.(*st).passed} }
+			h.Equal = func(a, b State) bool { return *a.(*st) == *b.(*st) }
+			h.Cond = func(e ast.Expr, truth bool, s State) State {
+				if c, ok := ast.Unparen(e).(*ast.CallExpr); ok && truth {
+					if se, ok := ast.Unparen(c.Fun).(*ast.SelectorExpr); ok && se.Sel.Name == "Is" && len(c.Args) == 1 {
+						tid, ok1 := ast.Unparen(se.X).(*ast.Ident)
+						vid, ok2 := ast.Unparen(c.Args[0]).(*ast.Ident)
+						if ok1 && ok2 && info.Uses[tid] == tObj && info.Uses[vid] == vObj {
+							s.(*st).passed = true
+						}
+					}
+				}
+				return s
+			}
+			h.Return = func(rs *ast.ReturnStmt, s State) {
+				if len(rs.Results) != 1 || early.IsValid() {
+					return
+				}
+				res := ast.Unparen(rs.Results[0])
+				if exprStr(res) == "true" && !s.(*st).passed {
+					early = rs.Pos()
+				}
+				// return declared.Is(value) is the test itself, and so is a disjunction whose every arm is that
+				// test (possibly narrowed by further conjuncts) or "there is no declared type" (declared == nil);
+				// any other non-constant answer is not understood
+				if exprStr(res) != "true" && exprStr(res) != "false" {
+					var isTest func(e ast.Expr) bool
+					isTest = func(e ast.Expr) bool {
+						e = ast.Unparen(e)
+						if c, ok := e.(*ast.CallExpr); ok {
+							if se, ok := ast.Unparen(c.Fun).(*ast.SelectorExpr); ok && se.Sel.Name == "Is" && len(c.Args) == 1 {
+								tid, ok1 := ast.Unparen(se.X).(*ast.Ident)
+								vid, ok2 := ast.Unparen(c.Args[0]).(*ast.Ident)
+								return ok1 && ok2 && info.Uses[tid] == tObj && info.Uses[vid] == vObj
+							}
+						}
+						if be, ok := e.(*ast.BinaryExpr); ok {
+							switch be.Op {
+							case token.LOR:
+								return isTest(be.X) && isTest(be.Y)
+							case token.LAND:
+								return isTest(be.X) || isTest(be.Y)
+							case token.EQL:
+								if id, ok := ast.Unparen(be.X).(*ast.Ident); ok && info.Uses[id] == tObj && exprStr(be.Y) == "nil" {
+									return true
+								}
+							}
+						}
+						return false
+					}
+					if isTest(res) {
+						return
+					}
+					if !s.(*st).passed {
+						early = rs.Pos()
+					}
+				}
+			}
+			WalkFunc(h, fd.Body, &st{})
+			key := funcKey(npkg, fd) + "#predicate-tests"
+			if early.IsValid() {
+				r.bad(key, early, "this type predicate answers true on a path on which the declared type's Is(value) was not consulted (a memo or fast path): a value of another type is accepted at every boundary that uses it")
+			} else {
+				r.ok(key, fd.Pos(), "answers true only after the declared type's Is(value) answered true")
+			}
+		}
+	}
+}
+
+// c07CallersOf: the functions of the package that call fd (statically resolved).
+func c07CallersOf(p *packages.Package, fd *ast.FuncDecl) []*ast.FuncDecl {
+	target := p.TypesInfo.Defs[fd.Name]
+	var out []*ast.FuncDecl
+	for _, g := range funcDecls(p) {
+		if g == fd || g.Body == nil {
+			continue
+		}
+		found := false
+		ast.Inspect(g.Body, func(n ast.Node) bool {
+			if c, ok := n.(*ast.CallExpr); ok && calleeOf(p.TypesInfo, c) == target {
+				found = true
+			}
+			return !found
+		})
+		if found {
+			out = append(out, g)
+		}
+	}
+	return out
 }
